@@ -158,13 +158,26 @@ func main() {
 				fmt.Printf("      %s   (%v) e.g. from %v\n", k, r.Found[k].ByOrigin, r.Found[k].Origins)
 			}
 		}
+		have := map[string]bool{}
+		for _, f := range findings {
+			have[f.Key] = true
+		}
+		if *out != "" { // harvested entries of an earlier run are kept
+			if b, err := os.ReadFile(filepath.Join(*out, prop.id+"-known-findings.json")); err == nil {
+				var old struct{ Findings []core.Finding }
+				if json.Unmarshal(b, &old) == nil {
+					for _, f := range old.Findings {
+						if strings.Contains(f.What, "; harvested from ") && !have[f.Key] {
+							have[f.Key] = true
+							findings = append(findings, f)
+						}
+					}
+				}
+			}
+		}
 		if *merge != "" {
 			files, _ := filepath.Glob(filepath.Join(*merge, "replays", prop.id, "*.json"))
 			sort.Strings(files)
-			have := map[string]bool{}
-			for _, f := range findings {
-				have[f.Key] = true
-			}
 			for _, fn := range files {
 				b, err := os.ReadFile(fn)
 				if err != nil {
